@@ -279,6 +279,10 @@ fn aggregate(extra: &BTreeMap<String, Vec<Value>>, cfg: &RunCfg) -> (Vec<(Failur
             ));
         }
     }
+    // every reported key is confirmed by recomputing its family's whole sample; a change that
+    // moves many strata at once is reported through at most three keys (families first)
+    out.sort_by_key(|(_, d)| d["family"].as_str().map(|k| (k.contains('|'), k.to_string())).unwrap_or((true, String::new())));
+    out.truncate(3);
     let mut summary = serde_json::Map::new();
     for (name, f) in merged.iter().filter(|(n, f)| judged(n, f)) {
         summary.insert(
